@@ -485,7 +485,9 @@ func evalThreshold(tc thresholdCase, n int, fillName string, fill func(int) []by
 					bad("message-does-not-encode-again", err.Error())
 					break
 				}
-				if again == allow && !bytes.Equal(rawN, raw) {
+				// (the bytes themselves need not repeat: the LZ4 encoder's match table is
+				// pooled, so two compressions of one payload may differ and both be valid)
+				if again == allow && (rawN[0] != raw[0] || (raw[0]&byte(network.Compressed) == 0 && !bytes.Equal(rawN, raw))) {
 					bad("second-encoding-of-the-same-message-differs", fmt.Sprintf("allow=%v: %s.. then %s..", allow, hx(raw[:8]), hx(rawN[:8])))
 				}
 				if mN, err := decodeMsg(rawN, false); err != nil {
